@@ -548,6 +548,10 @@ class Interpolation(object):
                 # If derivative is too small, switch to linear interpolation
                 if abs(yp) < 1e-3:
                     x = (xl * yh - xh * yl) / (yh - yl)
+                    # Linear interpolation stalls next to a bracket end (e.g.
+                    # near a double root): bisect in that case
+                    if x < xl + 0.1 * (xh - xl) or x > xh - 0.1 * (xh - xl):
+                        x = (xl + xh) / 2.0
                     y = self.__call__(x)
                 else:
                     x = x - y / yp
@@ -555,6 +559,8 @@ class Interpolation(object):
                     if x < xl or x > xh:
                         # Switch to linear interpolation
                         x = (xl * yh - xh * yl) / (yh - yl)
+                        if x < xl + 0.1 * (xh - xl) or x > xh - 0.1 * (xh - xl):
+                            x = (xl + xh) / 2.0
                         y = self.__call__(x)
                     else:
                         y = self.__call__(x)
